@@ -5,23 +5,10 @@ import os
 
 HERE = os.path.dirname(os.path.dirname(os.path.abspath(__file__)))
 
-COMMON_NOTE = ('Trusted: Coq 8.16.1 kernel + VM (vm_compute; no native_compute); no axioms declared (grep gate on every run, '
-               'Print Assumptions recorded per theorem in the evidence); tools/translate.py where gen/*.v is used; the '
-               'correspondence harness (generators, recorders, exact Fraction/hex-float conversions). ')
-
-CLAIMS = {
-    'C11': dict(
-        text=('FULL. Kernel-checked theorems, for every size N > d and every reconfiguration history: the hard-coded band tables '
-              '(regenerated from _banded_utils.py by the translator on every run) equal the bands of D\'D via a reflective check '
-              'lifted to all N by a representative-column lemma; dispatch side conditions; layout conversions; any history of '
-              'reset_diagonals/reverse_penalty followed by a reset equals the fresh system. The hand model of '
-              'diff_penalty_diagonals/_lower_to_full/_shift_rows/_pad_diagonals/PenalizedSystem is tied to the code by exact-integer '
-              'correspondence evaluated inside Coq; a direct dense oracle searches for failing inputs.'),
-        design_ref='DESIGN.md section 4, C11',
-        note=COMMON_NOTE + 'Modelled not verified: scipy.sparse D.T@D/_sparse_to_banded (general path) taken as the specification and dense-checked; float rounding for non-integer lam.',
-        technique='Coq proof (reflection + induction) over translator-generated tables; exact-integer model/implementation correspondence',
-    ),
-}
+CLAIMS = {}
+for _p in sorted(os.listdir(os.path.join(HERE, 'claims'))):
+    if _p.endswith('.json'):
+        CLAIMS[_p[:-5]] = json.load(open(os.path.join(HERE, 'claims', _p)))
 
 NOT_YET = 'check not built yet in this session (work in progress; see DESIGN.md section 8 build order)'
 
